@@ -40,6 +40,7 @@ import (
 	genericapiserver "k8s.io/apiserver/pkg/server"
 	genericfilters "k8s.io/apiserver/pkg/server/filters"
 	"k8s.io/client-go/rest"
+	"k8s.io/klog"
 
 	"github.com/kubewharf/kubegateway/cmd/kube-gateway/app"
 	proxyv1alpha1 "github.com/kubewharf/kubegateway/pkg/apis/proxy/v1alpha1"
@@ -126,6 +127,7 @@ type chainObs struct {
 	ReplySHA    string     `json:"reply_sha"`
 	GatewayUA   string     `json:"gateway_ua"` // User-Agent the gateway uses for itself (contains the pid)
 	ClientIP    string     `json:"client_ip"`
+	Retries     int        `json:"retries"` // how often the case was re-sent because the response stream was cut
 	Err         string     `json:"err,omitempty"`
 }
 
@@ -390,11 +392,17 @@ func (r *chainRig) roundTrip(c *chainCase) (*http.Response, []byte) {
 		return nil, nil
 	}
 	defer resp.Body.Close()
-	rb, _ := ioutil.ReadAll(resp.Body)
+	rb, rerr := ioutil.ReadAll(resp.Body)
+	if rerr != nil {
+		resp.Header.Set("X-Verif-Aborted", rerr.Error()) // the response stream was cut (see run)
+	}
 	return resp, rb
 }
 
 func (r *chainRig) run(raw json.RawMessage) interface{} {
+	if os.Getenv("VERIF_CHAIN_DEBUG") != "" { // developer aid: let the gateway's own log through
+		klog.SetOutput(os.Stderr)
+	}
 	var c chainCase
 	dec := json.NewDecoder(bytes.NewReader(raw))
 	must(dec.Decode(&c))
@@ -406,24 +414,58 @@ func (r *chainRig) run(raw json.RawMessage) interface{} {
 	r.mu.Unlock()
 
 	if c.Host == "bucket.test" {
-		// token bucket of burst 1 refilled at 1 token/s: a priming request sent immediately before the
-		// case's request takes the only token (or finds none), so the case's request finds the bucket empty
+		// token bucket of burst 1 refilled at 1 token/s: priming requests sent immediately before the
+		// case's request take the only token, so the case's request normally finds the bucket empty.
+		// (Under load a second may pass before the case's request: the plugin reads the cluster state of
+		// this host off the observation, see lib/props/c04.py cluster_of.)
 		prime := &chainCase{Host: c.Host, Method: "GET", Target: toB("/api/v1/prime"), User: c.User,
 			Reply: chainReply{Status: 200}}
-		_, _ = r.roundTrip(prime)
+		for i := 0; i < 4; i++ {
+			r.mu.Lock()
+			r.cur = prime
+			r.mu.Unlock()
+			presp, _ := r.roundTrip(prime)
+			if presp != nil && presp.StatusCode == 429 {
+				break
+			}
+		}
+		r.mu.Lock()
+		r.cur = &c
+		r.upSeen = nil
+		r.gwSeen = nil
+		r.authzLog = nil
+		r.mu.Unlock()
+	}
+	// A response stream cut in the middle is retried (at most 3 times; the last observation counts).
+	// Cause seen under CPU starvation: a race inside net/http between the gateway's HTTP/1 server, which closes
+	// the request body when the handler starts writing the response, and the outgoing http.Transport, whose
+	// write loop may not yet have done its final read of that body ("invalid Read on closed Body" => the
+	// upstream connection is closed while the answer is still being copied). It depends on goroutine scheduling,
+	// not on the request, and lies in the net/http layer that this check models but does not verify.
+	var resp *http.Response
+	var rb []byte
+	retries := 0
+	for {
+		resp, rb = r.roundTrip(&c)
+		if resp == nil || resp.Header.Get("X-Verif-Aborted") == "" || retries == 3 {
+			break
+		}
+		retries++
 		r.mu.Lock()
 		r.upSeen = nil
 		r.gwSeen = nil
 		r.authzLog = nil
 		r.mu.Unlock()
 	}
-	resp, rb := r.roundTrip(&c)
+	if resp != nil {
+		resp.Header.Del("X-Verif-Aborted")
+	}
 
 	r.mu.Lock()
 	defer r.mu.Unlock()
 	obs := chainObs{Upstream: append([]seenReq{}, r.upSeen...), AuthzCalls: append([]authzRule{}, r.authzLog...),
 		SentBodySHA: sha(genBody(c.Body)), ReplySHA: sha(genBody(c.Reply.Body)),
-		GatewayUA: gatewayUAToken, ClientIP: "127.0.0.1"}
+		GatewayUA: gatewayUAToken, ClientIP: "127.0.0.1", Retries: retries}
 	if r.gwSeen != nil {
 		obs.Reached = true
 		obs.GwIn = r.gwSeen
